@@ -696,6 +696,9 @@ class SObj(Sym):
             return wrap_expr(self.e == o.e)
         if o is None:
             return False
+        sch = OBJ_SCHEMAS.get(self.cls) or {}
+        if "__eq__" in sch:
+            return sch["__eq__"](self)(o)
         return NotImplemented
 
     def __ne__(self, o):
@@ -703,6 +706,9 @@ class SObj(Sym):
             return wrap_expr(self.e != o.e)
         if o is None:
             return True
+        sch = OBJ_SCHEMAS.get(self.cls) or {}
+        if "__eq__" in sch:
+            return wrap_expr(z3.Not(fml(sch["__eq__"](self)(o))))
         return NotImplemented
 
     __hash__ = Sym.__hash__
